@@ -25,15 +25,25 @@ BadT == {{}}
 
 \* the walkers that are not Clean in an observed walker-state vector
 Unclean(st) == {i \in DOMAIN Walkers : ~Clean(st[i][1], st[i][2], Walkers[i].oneShot)}
-Kind(o) == IF o.k = "exc" THEN "exc:" \o o.cls ELSE o.k
+\* outcome kind for signatures: val, or exc:<class>@<phase> (build = while constructing the arguments
+\* through the ExpressionManager, walk = inside the walker call); Agree ignores the phase
+Kind(o) == IF o.k = "exc" THEN "exc:" \o o.cls \o "@" \o o.phase ELSE o.k
 
-\* all violations of step i of trace t (st0 = walker states before the call)
+\* the call after which walker w, unclean after call i, has been unclean ever since
+Origin(t, i, w) == CHOOSE j \in 1..i : /\ \A k \in j..i : w \in Unclean(t.steps[k].st)
+                                       /\ (j = 1 \/ w \notin Unclean(t.steps[j - 1].st))
+
+\* all violations of step i of trace t.  Features: pre = the state of the shared walkers before
+\* the call: clean / unclean (every unclean walker was left so by a call that raised) /
+\* unclean-by-val (some walker was left unclean by a call that returned normally)
 StepBad(t, i) ==
    LET s   == t.steps[i]
        pre == IF i = 1 THEN {} ELSE Unclean(t.steps[i - 1].st)
+       pf  == IF pre = {} THEN "pre=clean"
+              ELSE IF \A w \in pre : t.steps[Origin(t, i - 1, w)].sh.k = "exc" THEN "pre=unclean"
+              ELSE "pre=unclean-by-val"
        hi  == IF Agree(s.sh, s.fr) THEN <<>>
-              ELSE << <<"HistoryIndependent", i, s.w, IF pre = {} THEN "pre=clean" ELSE "pre=unclean",
-                        "got=" \o Kind(s.sh), "want=" \o Kind(s.fr)>> >>
+              ELSE << <<"HistoryIndependent", i, s.w, pf, "got=" \o Kind(s.sh), "want=" \o Kind(s.fr)>> >>
        new == Unclean(s.st) \ pre
        cl  == [j \in 1..Cardinality(new) |->
                  LET w == CHOOSE x \in new : Cardinality({y \in new : y < x}) = j - 1 IN
